@@ -105,22 +105,29 @@ def cmd_import(src, sid):
 
 
 def cmd_run(sid, prop, tier='quick', scale=None):
+    """Run ./check <prop> <tier> against a scratch worktree of /repo HEAD with the patch applied (ZISIM_REPO points the
+    build step at it), so /repo itself is never touched and several changes can be tried at the same time."""
     patch = os.path.join(VERIF, 'seeded', sid, 'patch.diff')
-    st = sh(['git', '-C', REPO, 'status', '--porcelain', '--untracked-files=no']).stdout.strip()
-    assert not st, '/repo has local modifications: ' + st
-    r = sh(['git', '-C', REPO, 'apply', patch])
-    if r.returncode != 0:
-        print('patch does not apply:', r.stderr[-400:])
-        return None
+    wt = '/tmp/wt-run-%d' % os.getpid()
+    sh(['git', '-C', REPO, 'worktree', 'remove', '--force', wt])
+    r = sh(['git', '-C', REPO, 'worktree', 'add', '-q', '--detach', wt, 'HEAD'])
+    assert r.returncode == 0, r.stderr
     t0 = time.time()
     try:
-        e = dict(os.environ)
+        r = sh(['git', '-C', wt, 'apply', patch])
+        if r.returncode != 0:
+            print('patch does not apply:', r.stderr[-400:])
+            return None
+        e = dict(os.environ, ZISIM_REPO=wt)
         if scale:
             e['ZISIM_SCALE'] = str(scale)
-        e['ZISIM_EVIDENCE_DIR'] = '/tmp/zisim-seeded-evidence'
+        e['ZISIM_EVIDENCE_DIR'] = '/tmp/zisim-seeded-evidence-%d' % os.getpid()
+        e['ZISIM_REPLAY_DIR'] = e['ZISIM_EVIDENCE_DIR']
         r = sh(['./check', prop, tier], cwd=VERIF, env=e)
+        shutil.rmtree(e['ZISIM_EVIDENCE_DIR'], ignore_errors=True)
     finally:
-        sh(['git', '-C', REPO, 'checkout', '--', '.'])
+        sh(['git', '-C', REPO, 'worktree', 'remove', '--force', wt])
+        shutil.rmtree(wt, ignore_errors=True)
     lines = [l for l in r.stdout.splitlines() if l.startswith('VIOLATION') or 'fingerprint=' in l]
     return {'exit': r.returncode, 'wall_s': round(time.time() - t0, 1), 'lines': lines[:6],
             'tail': r.stdout.strip().splitlines()[-3:]}
@@ -139,7 +146,7 @@ def main(argv):
         rows = []
         for sid in sorted(os.listdir(os.path.join(VERIF, 'seeded'))):
             mp = os.path.join(VERIF, 'seeded', sid, 'meta.json')
-            if not os.path.exists(mp) or (only and not any(sid.startswith(o) for o in only)):
+            if not os.path.exists(mp) or (only and not any(o in sid for o in only)):
                 continue
             meta = json.load(open(mp))
             props = meta.get('check_with') or [meta['property']]
@@ -150,7 +157,7 @@ def main(argv):
                 print('%-14s %-4s %s %5.1fs %s' % (sid, prop, 'CAUGHT' if caught else 'MISSED', res['wall_s'] if res else 0,
                                                   (res['lines'][:1] if res else '')), flush=True)
         json.dump([{'id': a, 'property': b, 'caught': c, 'result': d} for a, b, c, d in rows],
-                  open(os.path.join(VERIF, 'seeded', 'RESULTS-%s.json' % tier), 'w'), indent=1)
+                  open(os.path.join(VERIF, 'seeded', 'RESULTS-%s%s.json' % (tier, ('-' + '_'.join(only)) if only else '')), 'w'), indent=1)
         return 0
 
 
